@@ -3,7 +3,8 @@
 //! usage: record_serial <out.ndjson> <seed> <max-events> [--pairs <file>]
 //!
 //! With `--pairs <file>` (lines "cmp <a> <b>" / "add <a> <n>" / "bump <a> 0" /
-//! "place <ts> <r> <era>" / "text <era> <v>", decimal u32)
+//! "place <ts> <r> <era>" / "text <era> <v>" / "instant <era+4> <v>" /
+//! "window <x> <lo> <hi>", decimal u32)
 //! the given calls are performed and recorded instead of generated ones: used
 //! to put sweep disagreements before TLC and to re-confirm a rejected event
 //! in isolation.
@@ -91,6 +92,30 @@ fn text_ev(w: &mut TraceWriter, era: u32, v: u32) -> Option<u32> {
     next
 }
 
+/// The instant era * 2^32 + v (era may be negative: before the epoch) is
+/// handed to the library as a jiff::Timestamp and converted into a serial;
+/// the machine's serial becomes the result.
+fn instant_ev(w: &mut TraceWriter, era: i64, v: u32) -> Option<u32> {
+    let t = (era << 32) + v as i64;
+    let got = std::panic::catch_unwind(|| lib_instant(t));
+    let (res, next) = match got {
+        Ok(Ok(a)) => (json!({"ok": limbs(a)}), Some(a)),
+        Ok(Err(e)) => (json!({"err": e}), None),
+        Err(_) => (json!({"panic": true}), None),
+    };
+    w.event(json!({"ev": "instant", "era": era, "v": limbs(v), "got": res}));
+    next
+}
+
+/// A verifier with the validity window [lo, hi) is shown the timestamp cur.
+fn window_ev(w: &mut TraceWriter, cur: u32, lo: u32, hi: u32) {
+    let mut ev = window_sites(lo, hi, cur);
+    ev["ev"] = json!("window");
+    ev["lo"] = json!(limbs(lo));
+    ev["hi"] = json!(limbs(hi));
+    w.event(ev);
+}
+
 fn add_ev(w: &mut TraceWriter, cur: u32, n: u32) -> Option<u32> {
     let lib = lib_add(cur, n);
     let res = |r: Option<u32>| match r {
@@ -136,6 +161,12 @@ fn main() {
                     "text" => {
                         text_ev(&mut w, a, b);
                     }
+                    // "instant <era + 4> <v>"
+                    "instant" => {
+                        instant_ev(&mut w, a as i64 - 4, b);
+                    }
+                    // "window <x> <lo> <hi>"
+                    "window" => window_ev(&mut w, a, b, nums.next().unwrap_or(0)),
                     // "place <ts> <r> <era>"
                     "place" => place_ev(&mut w, a, nums.next().unwrap_or(0), b),
                     _ => {}
@@ -189,6 +220,57 @@ fn main() {
             if let Some(x) = text_ev(&mut w, era, v) {
                 cur = x;
             }
+            continue;
+        }
+        // a serial made from a clock value, two eras before the epoch to two
+        // eras after it, dense around the epoch and the era boundaries
+        if rng.chance(1, 14) {
+            let era = rng.below(5) as i64 - 2;
+            let v = match rng.below(4) {
+                0 => *rng.pick(&[0u32, 1, 2, H - 1, H, H + 1, 0xFFFF_FFFF, 0xFFFF_FFFE]),
+                1 => 0u32.wrapping_sub(rng.below(100_000) as u32),
+                2 => rng.below(100_000) as u32,
+                _ => any(&mut rng),
+            };
+            if let Some(x) = instant_ev(&mut w, era, v) {
+                cur = x;
+            }
+            continue;
+        }
+        // the serial as a timestamp shown to a verifier: a window of "back"
+        // seconds before and "fwd" seconds after a clock value near cur
+        // (inside, at and just beyond either end), wherever cur lies --
+        // also with the window across the wrap-around; now and then an
+        // arbitrary (possibly ill-formed) window
+        if rng.chance(1, 9) {
+            if rng.chance(1, 6) {
+                // put the timestamp next to the wrap so that windows straddle it
+                cur = 0u32.wrapping_add(rng.below(8000) as u32).wrapping_sub(4000);
+                set_ev(&mut w, cur);
+            }
+            let (back, fwd) = match rng.below(4) {
+                0 => (3600u32, 300u32),
+                1 => (rng.below(1 << 16) as u32, rng.below(1 << 12) as u32),
+                2 => (rng.below(1 << 30) as u32, rng.below(1 << 30) as u32),
+                _ => (rng.below(3) as u32, rng.below(3) as u32),
+            };
+            // the verifier's clock relative to the timestamp: age -2 .. back+2,
+            // or around the future end, or anywhere
+            let age: u32 = match rng.below(6) {
+                0 => rng.below(5) as u32,
+                1 => back.wrapping_add(rng.below(5) as u32).wrapping_sub(2),
+                2 => 0u32.wrapping_sub(fwd).wrapping_add(rng.below(5) as u32).wrapping_sub(2),
+                3 => rng.below(back as u64 + 1) as u32,
+                4 => H.wrapping_add(rng.below(5) as u32).wrapping_sub(2),
+                _ => any(&mut rng),
+            };
+            let now = cur.wrapping_add(age);
+            let (lo, hi) = if rng.chance(1, 10) {
+                (any(&mut rng), any(&mut rng))
+            } else {
+                (now.wrapping_sub(back), now.wrapping_add(fwd))
+            };
+            window_ev(&mut w, cur, lo, hi);
             continue;
         }
         match rng.below(10) {
